@@ -408,7 +408,7 @@ def rom_cmd_value(c):
 
 
 THEOREM_FILES = ["cmd_roundtrip", "rom_cmd_decodes", "cmd_stream_roundtrip", "header_roundtrip", "layouts_agree",
-                 "counter_agreement", "hmac_groups_cover", "keyblob_unwraps", "rom_section_decodes",
+                 "counter_agreement", "counter_per_block", "hmac_groups_cover", "keyblob_unwraps", "rom_section_decodes",
                  "rom21_build_except_known", "rom21_build_fixed", "rom21_build_sha_refuted", "sections_all", "coverage21",
                  "parse21_first_section", "parse21_refuted", "parse21_accepts_only_verified"]
 
@@ -439,7 +439,7 @@ def run(tier):
     lap("proofs checked")
 
     # ------------------------------------------------------------------ cases
-    nfiles = 220 if thorough else 36
+    nfiles = 170 if thorough else 26
     cases = [dict(c) for c in FIXED_CASES] + [gen_build_case(rng, i, tier) for i in range(nfiles)]
     ops = []
     for i, case in enumerate(cases):
@@ -589,7 +589,7 @@ def run(tier):
                         {"kind": "parse", "case": case, "mutation": p, "got": got})
 
     # ------------------------------------------------------------------ command-level cases (cheap, many)
-    ncmd = 4000 if thorough else 700
+    ncmd = 4000 if thorough else 450
     cmd_cases = [gen_cmd(rng, big=thorough) for _ in range(ncmd)]
     # also out-of-range constructor arguments (the model follows the constructor's range checks)
     cmd_cases += [[2, U32 + 1, 0, "00", 1], [3, 0, 1 << 32, 4], [3, 0, 1, 6], [3, U32 + 1, 1, 4], [4, U32 + 1, 0, 0, 0], [5, U32 + 1, 0],
@@ -600,7 +600,7 @@ def run(tier):
     # streams for parse_command: exports of valid commands, plus headers with arbitrary fields and a correct checksum
     streams = []
     okexp = [bytes.fromhex(r["export"][1]) for r in r3 if r["export"][0] == "ok"]
-    for _ in range(600 if thorough else 150):
+    for _ in range(600 if thorough else 100):
         k = rng.choice([1, 1, 2, 3, 5])
         streams.append(b"".join(rng.choice(okexp) for _ in range(k)))
 
@@ -608,7 +608,7 @@ def run(tier):
         body = struct.pack("<BHIII", tag, flags, addr, count, data)
         c = (0x5A + sum(body)) & 0xFF
         return bytes([c if good else c ^ 0x10]) + body
-    for _ in range(2500 if thorough else 500):
+    for _ in range(2500 if thorough else 320):
         tag = rng.choice([0, 1, 2, 3, 4, 5, 6, 7, 8, 9, 10, 11, 12, 13, 14, 0xFF])
         flags = rng.choice([0, 1, 2, 3, 0x100, 0x110, 0x400, 0x9A0, 0xFFFF, 0x0800, 0x1000, rng.getrandbits(16)])
         count = rng.choice([0, 1, 3, 4, 5, 16, 32, rng.getrandbits(32)])
@@ -666,8 +666,8 @@ def run(tier):
                 case, b = cases[i], built[i]
                 ci = chain_info[case["chain"]]
                 seen_variants[i] = seen_variants.get(i, 0) + 1
-                if not thorough and seen_variants[i] > 2 and (seen_variants[i] + i) % 3:
-                    continue      # quick tier: pristine, wrong KEK and a third of the damaged copies go through the model
+                if seen_variants[i] > 2 and (seen_variants[i] + i) % (2 if thorough else 4):
+                    continue      # pristine, wrong KEK and a part of the damaged copies go through the model (all go through the oracles)
                 in_cert = any(208 <= (o if o >= 0 else len(d) + o) < 208 + b["cb"]["raw_size"] for o, _ in p.get("xor", []))
                 if in_cert:
                     continue      # X.509 parsing of a damaged certificate block is outside the model
